@@ -279,6 +279,15 @@ func c05Oracle(r *Rng, tier string, rep *Report) {
 			}
 		}
 	}
+	// (1a) module items around the statement terminator (ExportStmt.JS writes no ';' after a function / class declaration
+	// since def2553: with one, print -> parse would gain an EmptyStmt)
+	for _, s := range []string{"export function f(){}\n;", "export function f(){};", "export function f(){}", "export class A{};a", "export class A{}\na",
+		"export default class{}\n;a", "export default class{}", "export default function(){};a", "export default function g(){}\n;", "export default async function(){}",
+		"export default a\n;b", "export default (function(){});a", "export default (class{})\n;", "export var a\n;b", "var a;export {a}\n;b", "export * from 'm'\n;a", "import 'm'\n;a", "import('x')\n;b", "import.meta\n;b"} {
+		for o := 0; o < 2; o++ {
+			c05RoundTrip(rep, []byte(s), o, "fixed-module")
+		}
+	}
 	// (1b) byte-level edits of those snippets: whatever is still accepted (and valid UTF-8) must round-trip
 	alphabet := []byte("abx01 \n\t;,.(){}[]+-*/%<>=!&|^~?:'\"`$\\#")
 	corpus := c05Corpus()
